@@ -3,7 +3,12 @@ package main
 // splitmix64: every random choice of the harness derives from one state seeded by VERIF_SEED.
 type Rng struct{ s uint64 }
 
-func NewRng(seed uint64) *Rng { return &Rng{s: seed*0x9E3779B97F4A7C15 + 0x1234567} }
+// NewRng hashes the seed first: consecutive seeds must not give shifted copies of one stream.
+func NewRng(seed uint64) *Rng {
+	z := (seed ^ 0xD1B54A32D192ED03) * 0xFF51AFD7ED558CCD
+	z = (z ^ (z >> 33)) * 0xC4CEB9FE1A85EC53
+	return &Rng{s: z ^ (z >> 29)}
+}
 
 func (r *Rng) U64() uint64 {
 	r.s += 0x9E3779B97F4A7C15
